@@ -338,6 +338,26 @@ def rand_color_text(rnd):
     return "rgb(%d,%d,%d)" % (rnd.randrange(256), rnd.randrange(256), rnd.randrange(256))
 
 
+def recasings(v):
+    out = {v.upper(), v.lower(), v.title(), v.swapcase(), v[:1].lower() + v[1:].upper()}
+    out.discard(v)
+    return sorted(out)
+
+
+def case_oracle(res, site, argv_fn, values, stdin=None):
+    """An option value that the argument parser accepts in another letter case selects the same
+    behaviour as the documented spelling (or is rejected as a usage error) - never something else."""
+    for v in values:
+        rc0, out0, _ = run_cli(argv_fn(v), stdin=stdin)
+        for w in recasings(v):
+            rc, out, err = run_cli(argv_fn(w), stdin=stdin)
+            inp = " ".join(argv_fn(w))
+            res.case(inp)
+            generic_oracle(res, argv_fn(w), rc, out, err)
+            res.check(rc == 2 or (rc == rc0 and out == out0), "option-value-any-case", site, inp,
+                      "rc=%s %r; with %r: rc=%s %r" % (rc, out[:80], v, rc0, out0[:80]))
+
+
 # ------------------------------------------------------------------------------------------ C17
 
 def c17(res, tier, seed, lib):
@@ -427,6 +447,8 @@ def c17(res, tier, seed, lib):
     import re as _re
     table = _re.findall(r'named_color\("([a-z]+)"', open("/repo/src/named.rs").read())
     tinfo = infos(table)
+    case_oracle(res, "cli:sort-by", lambda t: ["sort-by", t, "#4080c0", "orange", "teal", "#123", "gray"], keys)
+    case_oracle(res, "cli:list", lambda t: ["list", "--sort", t], keys)
     for key in keys + ["random"]:
         rc, out, err = run_cli(["list", "--sort", key])
         got = out.decode().split("\n")
@@ -1155,6 +1177,7 @@ def c04(res, tier, seed, lib):
         res.check(rc == 0 and out.count(b"\n") == len(cols), "exit-0", "cli:format", inp, "rc=%s %r" % (rc, err[-100:]))
         ops.append("cli format 1 %s %d %s 0" % (hexs(t), len(cols), " ".join(hexs(c) for c in cols)))
         meta.append((inp, "ok %d %s - -" % (rc, hexs(out))))
+    case_oracle(res, "cli:format", lambda t: ["format", t, "#4080c0", "rgba(1,2,3,0.5)"], FORMAT_TYPES if tier == "thorough" else FORMAT_TYPES[::3])
     for (inp, impl), mo in zip(meta, model_batch(ops)):
         res.model_op()
         if mo != impl:
@@ -1200,6 +1223,7 @@ def c20(res, tier, seed, lib):
                 have = [(g.packed >> 16) & 255, (g.packed >> 8) & 255, g.packed & 255]
                 res.check(max(abs(a - b) for a, b in zip(ref, have)) <= 4, "cli-type-reaches-its-simulation", "cli:colorblind", inp,
                           "printed %s = rgb%s, reference projection for %s gives rgb%s" % (ln, tuple(have), t, tuple(ref)))
+    case_oracle(res, "cli:colorblind", lambda t: ["colorblind", t, "#4080c0", "orange"], ["prot", "deuter", "trit"])
     for argv, want in [(["colorblind", "xyz", "red"], 2), (["colorblind"], 2), (["colorblind", "prot", "nocolor"], 1)]:
         rc, out, err = run_cli(argv)
         res.case(repr(argv))
@@ -1354,6 +1378,7 @@ def c06(res, tier, seed, lib):
                 continue
             same = all(m0.group(i + 1) == m1.group(i + 1) for i in keep)
             res.check(same, "set-keeps-other-coordinates", "cli:set", inp, "input prints %r, result prints %r" % (out0.strip(), out.strip()))
+    case_oracle(res, "cli:set", lambda t: ["set", t, "0.4", "#4080c0", "rgba(200,100,50,0.5)"], SET_PROPS if tier == "thorough" else SET_PROPS[::2])
     fm = model_batch(ops)
     # the model answers with a wire colour; print it through the model's hsl formatter
     fops = []
